@@ -50,6 +50,7 @@ func (e Event) Label() string {
 type Result struct {
 	Events   []Event
 	Execs    []string // EXEC lines (descendant processes), with --log-exec
+	Seq      []string // MARK and EXEC lines in the order they were logged
 	Killed   bool
 	Torn     string
 	ExitCode int
@@ -171,6 +172,9 @@ func Run(o Opts, scratch string, cmd ...string) (*Result, error) {
 			res.Torn = l
 		case strings.HasPrefix(l, "EXEC "):
 			res.Execs = append(res.Execs, l[5:])
+			res.Seq = append(res.Seq, l)
+		case strings.HasPrefix(l, "MARK "):
+			res.Seq = append(res.Seq, l)
 		case strings.HasPrefix(l, "END"), strings.HasPrefix(l, "MARKER"), l == "":
 		default:
 			f := strings.SplitN(l, " ", 4)
